@@ -159,7 +159,13 @@ fn part_b(a: &Args, out: &mut Out, rng: &mut Rng) {
             let kind = rng.below(100);
             let (ops, want_tt, want_n, label): (Vec<(Vec<i32>, ClauseApplication)>, TT, u32, String);
             let mut step_is_inverse = false;
-            if kind < 10 && prev.is_some() && !prev_ambiguous {
+            if last_strategy == IncrementalStrategy::Undo && prev.is_some() && !prev_ambiguous && rng.chance(0.5) {
+                // the edit that was just answered from the undo cache, once more: its clauses are already added / removed,
+                // so nothing changes (it must not be taken for the inverse of anything)
+                let (_, _, pops) = prev.clone().unwrap();
+                label = format!("the latest edit once more {:?}", pops.iter().map(|(c, ap)| format!("{}{:?}", if *ap == ClauseApplication::Add { "+" } else { "-" }, c)).collect::<Vec<_>>());
+                ops = pops; want_tt = cur_tt.clone(); want_n = cur_n;
+            } else if kind < 10 && prev.is_some() && !prev_ambiguous {
                 // the inverse of the latest edit (should hit the undo cache)
                 let (ptt, pn, pops) = prev.clone().unwrap();
                 let inv: Vec<(Vec<i32>, ClauseApplication)> = pops.iter().map(|(c, ap)| (c.clone(), !*ap)).collect();
